@@ -90,6 +90,17 @@ def qiOk (qi : Option Nat) (idx : Nat) : Bool :=
   | none => true
   | some j => j = idx
 
+/-- client obligations that concern the whole queue: payloads are fresh; the node handed to
+    push is in no sub-queue, in no other push, and not inside the trypop returning it -/
+def clientOk (s : St) : Mpsc.Ev → Bool
+  | .callPush _ v => decide (v ∉ s.called)
+  | .wrDataClient _ n _ => (List.range s.np).all (fun j => freeIn (s.sub j) n)
+  | _ => true
+
+def calledAfter (s : St) : Mpsc.Ev → List Nat
+  | .callPush _ v => s.called ++ [v]
+  | _ => s.called
+
 def step (s : St) : Ev → Option St
   | .producer t p =>
     if p < s.np ∧ (s.sub (s.tq t)).pc t = .idle then some { s with tq := upd s.tq t p } else none
@@ -127,20 +138,10 @@ def step (s : St) : Ev → Option St
     | none => none
     | some (t, true) =>
       let idx := s.tq t
-      if idx < s.np ∧ qiOk qi idx ∧ (s.cpc = .idle ∨ s.ct ≠ t) then
-        let okClient : Bool := match e with
-          | .callPush _ v => decide (v ∉ s.called)
-          | .wrDataClient _ n _ => (List.range s.np).all (fun j => freeIn (s.sub j) n)
-          | _ => true
-        if okClient then
-          match Mpsc.step .spsc (s.sub idx) e with
-          | some q' =>
-            some { s with sub := upd s.sub idx q',
-                          called := match e with
-                            | .callPush _ v => s.called ++ [v]
-                            | _ => s.called }
-          | none => none
-        else none
+      if idx < s.np ∧ qiOk qi idx ∧ (s.cpc = .idle ∨ s.ct ≠ t) ∧ clientOk s e = true then
+        match Mpsc.step .spsc (s.sub idx) e with
+        | some q' => some { s with sub := upd s.sub idx q', called := calledAfter s e }
+        | none => none
       else none
     | some (t, false) =>
       match s.cpc with
